@@ -32,6 +32,7 @@ func (e *cvErr) Error() string { return "cvErr" }
 func convKinds() []convKind {
 	ch := make(chan int, 1)
 	e1 := errors.New("e1")
+	hs := &conv.S{7, "h"}
 	return []convKind{
 		{"ptr", conv.RPtr, conv.PPtr,
 			map[string]interface{}{"nil": nil, "typednil": (*conv.S)(nil), "val": &conv.S{1, "a"}, "lookalike": &conv.SL{2, "b"}},
@@ -47,6 +48,9 @@ func convKinds() []convKind {
 		{"struct", conv.RStruct, conv.PStruct,
 			map[string]interface{}{"nil": nil, "zero": conv.S{}, "val": conv.S{1, "a"}, "lookalike": conv.SL{2, "b"}, "samesize": conv.SX{A: 5}, "diffsize": conv.SBig{1, "a", 2}},
 			map[string]interface{}{"val": conv.S{1, "a"}, "lookalike": conv.S{2, "b"}}},
+		{"handle", conv.RHandle, conv.PHandle,
+			map[string]interface{}{"nil": nil, "zero": conv.H{}, "val": conv.H{P: hs}, "lookalike": conv.HL{P: hs}},
+			map[string]interface{}{"val": conv.H{P: hs}, "lookalike": conv.H{P: hs}}},
 		{"array", conv.RArr, conv.PArr, map[string]interface{}{"nil": nil, "zero": [2]int{}, "val": [2]int{1, 2}, "diffsize": [3]int{1, 2, 3}}, map[string]interface{}{"val": [2]int{1, 2}}},
 		{"int", conv.RInt, conv.PInt, map[string]interface{}{"nil": nil, "zero": 0, "val": 5, "samesize": uint(5), "diffsize": int32(5)}, map[string]interface{}{"val": 5}},
 		{"float", conv.RFloat, conv.PFloat, map[string]interface{}{"nil": nil, "zero": 0.0, "val": 2.5, "samesize": int64(2), "diffsize": float32(2.5)}, map[string]interface{}{"val": 2.5}},
